@@ -189,6 +189,68 @@ pub fn replay_bddvec(args: &Args) {
     println!("{}", json!({"vectors": t.vectors, "steps": t.steps, "configs": configs, "mismatches": t.mismatches, "bad": t.bad}));
 }
 
+// ---------------------------------------------------------------- standard triples (Ite::new)
+
+pub fn replay_itevec(args: &Args) {
+    use rsdd::builder::cache::Ite;
+    let text = std::fs::read_to_string(args.str("in", "")).expect("read vectors");
+    let nv = args.num("nv", 2) as usize;
+    let vecs: Vec<Value> = text.lines().map(|l| serde_json::from_str(l).unwrap()).collect();
+    let (mut mismatches, mut ndrift) = (0usize, 0usize);
+    let mut bad: Vec<Value> = vec![];
+    let mut drift: Vec<Value> = vec![];
+    if vecs.is_empty() {
+        println!("{}", json!({"vectors": 0, "steps": 0, "mismatches": 0, "bad": [], "ndrift": 0, "drift": []}));
+        return;
+    }
+    let order: Vec<usize> = vecs[0]["order"].as_array().unwrap().iter().map(|x| x.as_u64().unwrap() as usize).collect();
+    let ord = VarOrder::new(&order.iter().map(|v| VarLabel::new_usize(*v)).collect::<Vec<_>>());
+    let b = RobddBuilder::<AllIteTable<BddPtr>>::new(ord);
+    let mut memo = HashMap::new();
+    let fullm = full(nv);
+    for v in &vecs {
+        let (tf, tg, th) = (tt_of(&v["f"]), tt_of(&v["g"]), tt_of(&v["h"]));
+        let f = bdd_build(&b, tf, 0, &order, nv, &mut memo);
+        let g = bdd_build(&b, tg, 0, &order, nv, &mut memo);
+        let h = bdd_build(&b, th, 0, &order, nv, &mut memo);
+        let exp = tt_of(&v["exp"]);
+        // the order predicate ite_helper passes: constants first, otherwise by the level of the top variable
+        let o = |a: BddPtr, c: BddPtr| match (a, c) {
+            (BddPtr::PtrTrue, _) | (BddPtr::PtrFalse, _) => true,
+            (_, BddPtr::PtrTrue) | (_, BddPtr::PtrFalse) => false,
+            (BddPtr::Reg(x) | BddPtr::Compl(x), BddPtr::Reg(y) | BddPtr::Compl(y)) => b.order().lt(x.var, y.var),
+        };
+        let (kind, kf, kg, kh) = match guarded(|| Ite::new(o, f, g, h)) {
+            Ok(Ite::IteConst(c)) => ("const", bdd_tt(c, nv), 0, 0),
+            Ok(Ite::IteChoice { f, g, h }) => ("choice", bdd_tt(f, nv), bdd_tt(g, nv), bdd_tt(h, nv)),
+            Ok(Ite::IteComplChoice { f, g, h }) => ("compl", bdd_tt(f, nv), bdd_tt(g, nv), bdd_tt(h, nv)),
+            Err(_) => ("panic", 0, 0, 0),
+        };
+        let ite = |a: TT, b2: TT, c: TT| (a & b2) | (!a & c & fullm);
+        let value = match kind {
+            "const" => kf,
+            "choice" => ite(kf, kg, kh),
+            "compl" => !ite(kf, kg, kh) & fullm,
+            _ => u64::MAX,
+        };
+        if value != exp {
+            mismatches += 1;
+            if bad.len() < 10 {
+                bad.push(json!({"vector": v, "code_key": [kind, kf, kg, kh], "key_value": value, "exp_tt": exp}));
+            }
+        } else if kind != v["kind"].as_str().unwrap()
+            || kf != tt_of(&v["kf"])
+            || (kind != "const" && (kg != tt_of(&v["kg"]) || kh != tt_of(&v["kh"])))
+        {
+            ndrift += 1;
+            if drift.len() < 3 {
+                drift.push(json!({"vector": v, "code_key": [kind, kf, kg, kh]}));
+            }
+        }
+    }
+    println!("{}", json!({"vectors": vecs.len(), "steps": vecs.len(), "mismatches": mismatches, "bad": bad, "ndrift": ndrift, "drift": drift}));
+}
+
 // ---------------------------------------------------------------- SDD
 
 fn sdd_eval(p: SddPtr, a: usize) -> bool {
